@@ -8,6 +8,7 @@
 #include <pomerol/Vertex4.h>
 #include <pomerol/Susceptibility.h>
 #include <pomerol/EnsembleAverage.h>
+#include <pomerol/OperatorPresets.h>
 #include <set>
 #include <cmath>
 
@@ -61,6 +62,26 @@ static void run_history(int model, long mp, bool nosym, const std::vector<Op>& o
                     try { s0.S->getInnerState(QuantumState(st)); cnt.unexpected = "getInnerState(" + std::to_string(st) + ") of " + std::to_string(N) + " states did not throw"; } catch (std::exception&) { cnt.expected_exc++; }
                 }
                 for (BlockNumber b = 0; b < s0.S->NumberOfBlocks(); b++) { try { s0.S->getFockState(b, s0.S->getBlockSize(b)); cnt.unexpected = "getFockState past the block did not throw"; } catch (std::exception&) { cnt.expected_exc++; } }
+            }
+            else if (k == "OP") {
+                // symbolic operator algebra on the model's modes: presets, products, commutators, action on every Fock state
+                using namespace OperatorPresets;
+                int i = dig(arg(0), 0, nm), j = dig(arg(0), 1, nm);
+                N Ntot(nm);
+                std::vector<ParticleIndex> ups, downs; for (int m = 0; m < nm; m++) ((m % 2) ? ups : downs).push_back(m);
+                Sz sz(ups, downs);
+                Operator a = Cdag(i) * C(j), b = C(i) * Cdag(j), h = *s0.Storage;
+                Operator comm = a.getCommutator(b), anti = Cdag(i).getAntiCommutator(C(j)), prod = h * a - a * h;
+                bool c1 = h.commutes(Ntot), c2 = a.commutes(b), c3 = N_offdiag(i, j) == a; (void)c1; (void)c2; (void)c3;
+                unsigned long NS = 1ul << nm;
+                for (unsigned long st = 0; st < NS; st++) {
+                    FockState ket(nm, st);
+                    for (const Operator* op : {(const Operator*)&a, (const Operator*)&comm, (const Operator*)&anti, (const Operator*)&prod, (const Operator*)&Ntot, (const Operator*)&sz}) {
+                        std::map<FockState, MelemType> out = op->actRight(ket);
+                        for (auto& kv : out) { use(kv.second); use(op->getMatrixElement(kv.first, ket)); }
+                    }
+                    use(Ntot.getMatrixElement(ket)); use(sz.getMatrixElement(ket));
+                }
             }
             else if (k == "D") {
                 if (!hComp) { cnt.skipped++; continue; }
@@ -172,6 +193,7 @@ static std::string gen_ops(hc::Rng& r, int nm) {
     if (r.pct(95)) ops.push_back("Hc");
     if (r.pct(15)) ops.push_back("Hc");
     if (r.pct(30)) ops.push_back("Q");
+    if (r.pct(20)) ops.push_back("OP:" + q2());
     ops.push_back("D:" + std::to_string(r.pick(std::vector<int>{1, 2, 5, 10, 20, 40})));
     if (r.pct(20)) ops.push_back("T:" + std::to_string(r.range(1, 8)));
     ops.push_back("O");
@@ -198,7 +220,7 @@ static hc::Outcome run_one(hc::RunSpec& rs) {
     int P; { int x = r.below(100); P = x < 40 ? 1 : x < 70 ? 2 : x < 88 ? 3 : 4; }
     c.def("P", P); P = std::max(1, std::min(8, (int)c.i("P"))); c.set("P", P);
     bool big = c.i("big", 0) != 0;
-    int model; { int x = r.below(100); model = x < 22 ? models::ATOM : x < 55 ? models::DIMER : x < 70 ? models::KANAMORI : x < 78 ? models::ATOM_FIELD : x < 87 ? models::DIMER_FIELD : x < 96 ? models::ATOMS2 : (big ? models::CHAIN3 : models::KANAMORI); }
+    int model; { int x = r.below(100); model = x < 22 ? models::ATOM : x < 55 ? models::DIMER : x < 70 ? models::KANAMORI : x < 78 ? models::ATOM_FIELD : x < 85 ? models::DIMER_FIELD : x < 91 ? models::ATOMS2 : x < 96 ? models::EXCH2 : (big ? (r.pct(50) ? models::CHAIN3 : models::T2G) : models::KANAMORI); }
     c.def("model", model); model = (int)c.i("model") % models::N_MODELS; if (model < 0) model = 0; c.set("model", model);
     c.def("mp", r.pct(15) ? 0 : r.range(1, 100000));
     c.def("nosym", r.pct(40));   // one block: off-diagonal components whose sparse matrices have different sparsity patterns
